@@ -27,8 +27,8 @@ def port_set(port):
     if not port.operator:
         return None
     items = list(port.items)
-    if any(not 1 <= i <= 65535 for i in items):
-        return "outside"
+    if any(not 0 <= i <= 65535 for i in items):
+        return "outside"  # (operand 0 is accepted by the library; inside the universe 1..65535 it denotes no port)
     return intervals.from_operator(port.operator, items)
 
 
